@@ -139,3 +139,71 @@ def run(ctx) -> None:  # noqa: F811
              "(focal spread, tilt series) differ from the eager result as soon as the axis is split into blocks")
     sameslice.check(ctx, ctx.repo.method("abtem.distributions", "DistributionFromValues", "divide"))
     _inner_run_c01(ctx)
+
+
+# ---- added: rank of the block function's packing vs. the blockwise output symbols (found on the tree)
+_inner_run_c01b = run
+
+
+def run(ctx) -> None:  # noqa: F811
+    import ast as _ast
+
+    from ..model import call_name as _cn, dotted as _dotted, norm_text as _nt, walk_no_nested as _walk
+
+    ctx.rule("R-BLOCKRANK", "writer/reader agreement of the lazy apply_transform: multi_output_blockwise declares one "
+             "output symbol per *dimension* of every transform-argument array (sum of len(axis.shape)) plus the "
+             "array's own dimensions; the block function _apply_transform must pack its result into an object array "
+             "of that rank.  A rank that counts one dimension per *argument* is only right while every transform's "
+             "_partition_args returns 1-d blocks: it is a violation as soon as some _partition_args adds a dimension "
+             "to an argument array (x[..., None]) — dask then concatenates mis-shaped blocks whenever base axes are "
+             "dropped (scalar detectors), in lazy mode only")
+    repo = ctx.repo
+    mob = repo.function("abtem.array", "multi_output_blockwise")
+    at = repo.method("abtem.array", "ArrayObject", "_apply_transform")
+    # reader: out_ndim = new_ndim + base_ndim with new_ndim = sum(len(axis.shape) for axis in new_axes)
+    decl_by_dim = any(isinstance(c, _ast.Call) and _cn(c) == "sum" and "shape" in _nt(c) for c in _walk(mob.node))
+    ctx.require(decl_by_dim, f"{mob.qualname}: the number of output symbols is no longer sum(len(axis.shape) ...) + ndim")
+    # writer: packing = np.zeros((1,) * <rank>, dtype=object)
+    zeros = [c for c in _walk(at.node) if isinstance(c, _ast.Call) and (_cn(c) or "").endswith("zeros") and c.args
+             and isinstance(c.args[0], _ast.BinOp) and isinstance(c.args[0].op, _ast.Mult)]
+    ctx.require(len(zeros) == 1, f"{at.qualname}: packing array `np.zeros((1,) * rank, dtype=object)` not found")
+    rank = zeros[0].args[0].right if isinstance(zeros[0].args[0].left, _ast.Tuple) else zeros[0].args[0].left
+    from ..cfg import DataFlow as _DF
+
+    dfa = _DF(at.node)
+    st = next(s for s in _walk(at.node) if isinstance(s, _ast.stmt) and any(x is zeros[0] for x in _ast.walk(s))
+              and not isinstance(s, (_ast.If, _ast.For, _ast.With, _ast.Try, _ast.FunctionDef)))
+    expr = rank
+    if isinstance(rank, _ast.Name):
+        d = dfa.single_def(dfa.cfg.node_of(st).idx, rank.id)
+        ctx.require(d is not None and d.value is not None, f"{at.qualname}: rank `{rank.id}` has no single definition")
+        expr = d.value
+    text = _nt(expr)
+    by_dim = any(isinstance(c, _ast.Call) and _cn(c) == "sum" and ("ndim" in _nt(c) or "shape" in _nt(c))
+                 for c in _ast.walk(expr))
+    adders = []
+    if not by_dim:
+        for f in repo.all_functions():
+            if f.name != "_partition_args" or f.cls is None:
+                continue
+            for r in _walk(f.node):
+                if not isinstance(r, (_ast.Return, _ast.Assign)):
+                    continue
+                for sub in _ast.walk(r.value) if r.value is not None else ():
+                    if isinstance(sub, _ast.Subscript):
+                        idx = sub.slice.elts if isinstance(sub.slice, _ast.Tuple) else [sub.slice]
+                        if any(isinstance(i_, _ast.Constant) and i_.value is None for i_ in idx):
+                            adders.append((f, sub))
+                    if isinstance(sub, _ast.Call) and (_cn(sub) or "").split(".")[-1] in ("expand_dims", "atleast_2d"):
+                        adders.append((f, sub))
+    if by_dim:
+        ctx.ok("R-BLOCKRANK", f"{at.qualname}:packing rank", at.loc(zeros[0]),
+               f"packing rank `{text[:70]}` counts the dimensions of every argument block")
+    else:
+        ctx.check(not adders, "R-BLOCKRANK", f"{at.qualname}:packing rank", at.loc(zeros[0]),
+                  f"packing rank `{text[:60]}` counts arguments; every _partition_args returns 1-d blocks",
+                  f"the packing rank `{text[:60]}` counts one dimension per transform argument, but "
+                  + "; ".join(f"{f.qualname} returns `{_nt(s_)[:40]}` (an added dimension)" for f, s_ in adders[:3])
+                  + ": multi_output_blockwise declares one symbol per dimension, so the packed block has too few "
+                    "dimensions and dask fails (or mis-assembles) when base axes are dropped", key_detail="rank")
+    _inner_run_c01b(ctx)
